@@ -277,12 +277,16 @@ def _enum_preempt(tier):
   from ..sim import detsched as D
   for n, scn in enumerate(_PSCN):
     base = dict(scn, mode="threaded")
-    for d in _VS.probe_decisions(dict(base, sched={})):
+    yield dict(base, sched={})
+    decs = _VS.probe_decisions(dict(base, sched={}))
+    if len(decs) > 4000:
+      continue        # the default schedule does not even quiesce (the case just yielded reports that): nothing to enumerate
+    for d in decs:
       for v in range(1, d["n"]):
         yield dict(base, sched={"devs": [[d["k"], v]]})
     if tier == "thorough" and n < 2:
       def probe(devs, base=base):
-        return _VS.probe_decisions(dict(base, sched={"devs": [[k, v] for k, v in sorted(devs.items())]}))
+        return _VS.probe_decisions(dict(base, sched={"devs": [[k, v] for k, v in sorted(devs.items())]}))[:4000]
       for devs in D.enumerate_deviations(probe, 2, want=lambda d: d["kind"] != "line" or d["site"].startswith(_HUB_SITES)):
         if len(devs) == 2:
           yield dict(base, sched={"devs": [[k, v] for k, v in sorted(devs.items())]})
